@@ -30,6 +30,7 @@ type Scen struct {
 	Others []*Cluster
 	Dead   bool
 	Cfg    map[string]interface{}
+	mon    *monitor
 }
 
 func (s *Scen) Fail(props []string, sig, what string) {
@@ -89,6 +90,9 @@ func tailOf(path string, n int) []string {
 }
 
 func (s *Scen) inconclusive(f string, a ...interface{}) {
+	if s.mon != nil && s.healthyDetached(s.mon) {
+		return
+	}
 	if s.Cl != nil && s.Cl.IsWedged() && !s.Dead {
 		// not a slow run: the controller stopped giving up its lock, so neither I/O nor management requests are served
 		s.Fail([]string{"C05", "C14", s.Prop}, "controller-wedged", "the controller's lock has been held for more than 45 s (ten rpc deadlines) - I/O and management requests hang; last events: "+strings.Join(tailStr(s.Cl.Events, 6), " | ")+"; then: "+fmt.Sprintf(f, a...))
@@ -122,6 +126,7 @@ type monitor struct {
 	// sinceStart[addr] = modes seen since the harness last (re)started that replica
 	sinceStart map[string][]types.Mode
 	bad        string
+	bad2       string // a healthy RW replica was detached
 }
 
 func startMonitor(cl *Cluster) *monitor {
@@ -154,9 +159,16 @@ func startMonitor(cl *Cluster) *monitor {
 					cl.event("controller lists %s as %s", a, md)
 				}
 			}
-			for a := range m.last {
+			for a, was := range m.last {
 				if _, ok := modes[a]; !ok {
 					cl.event("controller dropped %s", a)
+					// a replica that was RW, whose process is up and to which the harness has done nothing since it was
+					// started has no reason to be detached
+					for _, p := range cl.Reps {
+						if p.Addr == a && was == types.RW && p.Alive() && atomic.LoadInt32(&p.Faulted) == 0 && time.Since(p.startedAt) > time.Second && m.bad2 == "" {
+							m.bad2 = fmt.Sprintf("replica %d (%s) was RW, its process is running (started %.1f s ago) and nothing was done to it since, yet the controller detached it; membership now %v", p.Idx, a, time.Since(p.startedAt).Seconds(), modes)
+						}
+					}
 				}
 			}
 			if wo > m.maxWO {
@@ -418,6 +430,8 @@ func RunRebuild(s *Scen, r *vk.Rand, a, b int, bin, base string, cycles int) {
 	// volume start are where concurrent add requests occur
 	mon := startMonitor(cl)
 	defer mon.Stop()
+	s.mon = mon
+	defer func() { s.mon = nil }()
 	if s.Prop == "C10" && (s.Case/100)%2 == 1 {
 		// an old volume: every replica starts with a revision count beyond 2^31 (about a week of writes at a few
 		// thousand per second), as its revision.counter file would hold it
@@ -500,6 +514,7 @@ func RunRebuild(s *Scen, r *vk.Rand, a, b int, bin, base string, cycles int) {
 			// (and detached it) rather than have sent the timed-out request again
 			errsBefore := len(cl.IOErrs)
 			cl.event("cycle %d: replica %d stalls for 6 s (rpc deadline 4 s), %d writers", cyc, x.Idx, nw)
+			atomic.StoreInt32(&x.Faulted, 1)
 			syscall.Kill(x.cmd.Process.Pid, syscall.SIGSTOP)
 			time.Sleep(6 * time.Second)
 			syscall.Kill(x.cmd.Process.Pid, syscall.SIGCONT)
@@ -532,6 +547,7 @@ func RunRebuild(s *Scen, r *vk.Rand, a, b int, bin, base string, cycles int) {
 		errsBefore := len(cl.IOErrs)
 		cl.event("cycle %d: victim replica %d, %s, %d writers", cyc, x.Idx, how, nw)
 		if how == "stop" {
+			atomic.StoreInt32(&x.Faulted, 1)
 			syscall.Kill(x.cmd.Process.Pid, syscall.SIGSTOP)
 			cl.event("SIGSTOP replica %d", x.Idx)
 		} else if how == "idlestopkill" {
@@ -539,6 +555,7 @@ func RunRebuild(s *Scen, r *vk.Rand, a, b int, bin, base string, cycles int) {
 			// dies - the connection fails while the monitor is waiting for the ping's reply, not between two pings
 			ws.Stop()
 			time.Sleep(300 * time.Millisecond)
+			atomic.StoreInt32(&x.Faulted, 1)
 			syscall.Kill(x.cmd.Process.Pid, syscall.SIGSTOP)
 			time.Sleep(time.Duration(r.Range(2300, 3800)) * time.Millisecond)
 			cl.Kill(x, false)
@@ -621,13 +638,36 @@ func RunRebuild(s *Scen, r *vk.Rand, a, b int, bin, base string, cycles int) {
 				time.Sleep(2 * time.Millisecond)
 			}
 			killed := 0
-			for end := time.Now().Add(window); time.Now().Before(end); time.Sleep(time.Millisecond) {
-				if interrupt == 6 {
-					// the transfers of the snapshots' data files fail, those of their metadata files work
-					killed += killSenders(x.IP, ".img")
-					continue
+			atomic.StoreInt32(&x.Faulted, 1)
+			if interrupt == 6 {
+				// the transfer of one data file fails - every attempt at it for 3 s - while metadata files and the other
+				// data files get through: the snapshot taken when x rejoined, the one file whose content x does not have
+				target := ""
+				for _, p := range cl.Reps {
+					if p != x && cl.Modes()[p.Addr] == types.RW {
+						if ri, err := GetRep(p.IP); err == nil && len(ri.Chain) > 1 {
+							target = ri.Chain[1]
+						}
+						break
+					}
 				}
-				killed += killSenders(x.IP, "")
+				var first time.Time
+				for end := time.Now().Add(30 * time.Second); target != "" && time.Now().Before(end); time.Sleep(500 * time.Microsecond) {
+					if !first.IsZero() && time.Since(first) > 3*time.Second {
+						break
+					}
+					if n := killSenders(x.IP, target); n > 0 {
+						killed += n
+						if first.IsZero() {
+							first = time.Now()
+						}
+					}
+				}
+				s.Cfg["transfer_made_to_fail"] = target
+			} else {
+				for end := time.Now().Add(window); time.Now().Before(end); time.Sleep(time.Millisecond) {
+					killed += killSenders(x.IP, "")
+				}
 			}
 			s.Res.Count("file_transfer_senders_killed", int64(killed))
 			s.Res.Count(fmt.Sprintf("rebuilds_with_failing_transfers_kind%d", interrupt), 1)
@@ -705,6 +745,7 @@ func RunRebuild(s *Scen, r *vk.Rand, a, b int, bin, base string, cycles int) {
 				}
 				for i, end := 0, time.Now().Add(8*time.Second); time.Now().Before(end); i++ {
 					n := fmt.Sprintf("race%d-%d", cyc, i)
+					atomic.StoreInt32(&x.Faulted, 1) // a snapshot that finds x still finishing makes the controller drop it
 					if _, err := cl.C.Snapshot(n); err == nil {
 						name = n
 						cl.event("snapshot %s accepted at the end of the rebuild of replica %d", n, x.Idx)
@@ -761,6 +802,10 @@ func RunRebuild(s *Scen, r *vk.Rand, a, b int, bin, base string, cycles int) {
 		if bad != "" {
 			ws.Stop()
 			s.Fail([]string{"C07", "C18"}, "more-than-one-WO", bad)
+			return
+		}
+		if s.healthyDetached(mon) {
+			ws.Stop()
 			return
 		}
 		// a replica that came back while others were RW can only have become RW through a completed rebuild
@@ -1080,4 +1125,16 @@ func killSenders(ip, suffix string) int {
 		}
 	}
 	return n
+}
+
+// healthyDetached reports (once) that the controller detached a replica that was RW, alive and untouched.
+func (s *Scen) healthyDetached(m *monitor) bool {
+	m.mu.Lock()
+	b := m.bad2
+	m.mu.Unlock()
+	if b == "" || s.Dead {
+		return false
+	}
+	s.Fail([]string{"C05", "C18", "C07", "C02"}, "healthy-replica-detached", b)
+	return true
 }
